@@ -104,10 +104,21 @@ func (Engine) Generate(prop string, r *kit.Rand, tier string) *kit.Scenario[Conf
 	switch {
 	case fibDirect:
 		sc.Config.Fib = "both"
+		hot := ""
+		if r.Chance(0.25) {
+			// one busy prefix: many faces come, go and change cost on the same entry
+			hot = genName(r, 4, pool)
+			nfaces = r.Range(3, 7)
+		}
 		for i := 0; i < nops; i++ {
 			o := Op{Name: genName(r, 6, pool)}
+			w := []int{8, 5, 2, 3, 3}
+			if hot != "" && r.Chance(0.55) {
+				o.Name = hot
+				w = []int{8, 6, 0, 0, 0}
+			}
 			pool = append(pool, o.Name)
-			switch r.Weighted([]int{8, 5, 2, 3, 3}) {
+			switch r.Weighted(w) {
 			case 0:
 				o.Op, o.Face, o.Cost = "ins", uint64(r.Range(1, nfaces)), uint64(r.Intn(4))
 				if r.Chance(0.05) {
